@@ -1,6 +1,7 @@
 package prove
 
 import (
+	"go/token"
 	"go/constant"
 	"go/types"
 	"strconv"
@@ -201,8 +202,22 @@ func (c *Ctx) callFacts(call *ssa.Call, o lin.Form) {
 			// index + len(sep) <= len(s)
 			c.add(lin.LE(o.Add(c.LenOf(a[1])), c.LenOf(a[0])))
 		}
-	case "strings.Count":
+	case "strings.Count", "bytes.Count":
 		c.add(lin.GE0(o))
+	case "math/bits.Len", "math/bits.Len64", "math/bits.OnesCount", "math/bits.OnesCount64", "math/bits.LeadingZeros", "math/bits.LeadingZeros64", "math/bits.TrailingZeros", "math/bits.TrailingZeros64":
+		c.add(lin.GE0(o), lin.LE(o, lin.K(64)))
+	case "math/bits.Len32", "math/bits.OnesCount32", "math/bits.LeadingZeros32", "math/bits.TrailingZeros32":
+		c.add(lin.GE0(o), lin.LE(o, lin.K(32)))
+	case "math/bits.Len16", "math/bits.OnesCount16", "math/bits.LeadingZeros16", "math/bits.TrailingZeros16":
+		c.add(lin.GE0(o), lin.LE(o, lin.K(16)))
+	case "math/bits.Len8", "math/bits.OnesCount8", "math/bits.LeadingZeros8", "math/bits.TrailingZeros8":
+		c.add(lin.GE0(o), lin.LE(o, lin.K(8)))
+	case "unicode/utf8.RuneLen", "unicode/utf8.RuneCount", "unicode/utf8.RuneCountInString":
+		if staticName(call.Common()) == "unicode/utf8.RuneLen" {
+			c.add(lin.GE(o, lin.K(-1)), lin.LE(o, lin.K(4)))
+		} else {
+			c.add(lin.GE0(o), lin.LE(o, c.LenOf(call.Common().Args[0])))
+		}
 	case "encoding/hex.EncodedLen":
 		c.add(lin.EQ(o, c.Lin(call.Common().Args[0]).ScaleI(2))...)
 	}
@@ -307,6 +322,105 @@ func (c *Ctx) boolCallFacts(call *ssa.Call, truth bool) {
 		if truth {
 			c.add(lin.GE(c.LenOf(a[0]), c.LenOf(a[1])))
 		}
+	default:
+		c.predicateFacts(call, truth)
+	}
+}
+
+// predicateFacts: an in-module predicate helper whose body is a single
+// comparison over its parameters, their lengths, fields of a pointer parameter
+// and constants (`func (x *T) holds(end uint32) bool { return x.size >= end }`)
+// is evaluated in the caller's frame: parameters become the arguments, a field
+// read becomes the value the field holds just before the call.
+func (c *Ctx) predicateFacts(call *ssa.Call, truth bool) {
+	cc := call.Common()
+	if cc.IsInvoke() {
+		return
+	}
+	fn := cc.StaticCallee()
+	if fn == nil || !c.FI.W.P.InModule(fn) || len(fn.Blocks) != 1 || len(cc.Args) != len(fn.Params) {
+		return
+	}
+	ret, ok := fn.Blocks[0].Instrs[len(fn.Blocks[0].Instrs)-1].(*ssa.Return)
+	if !ok || len(ret.Results) != 1 {
+		return
+	}
+	bo, ok := ret.Results[0].(*ssa.BinOp)
+	if !ok || !isCmp(bo.Op) {
+		return
+	}
+	var tr func(v ssa.Value, d int) (lin.Form, bool)
+	tr = func(v ssa.Value, d int) (lin.Form, bool) {
+		if d > 4 {
+			return lin.Form{}, false
+		}
+		if k, ok := constInt(v); ok {
+			return lin.KB(k), true
+		}
+		if _, _, isInt := isIntType(v.Type()); !isInt {
+			return lin.Form{}, false
+		}
+		switch x := v.(type) {
+		case *ssa.Parameter:
+			for j, p := range fn.Params {
+				if p == x {
+					return c.Lin(cc.Args[j]), true
+				}
+			}
+		case *ssa.Convert:
+			// only value-preserving (widening or same-size unsigned→unsigned) conversions
+			sb, ss, ok1 := isIntType(x.X.Type())
+			db, ds, ok2 := isIntType(x.Type())
+			if ok1 && ok2 && (db > sb && (ds || !ss) || db == sb && ds == ss) {
+				return tr(x.X, d+1)
+			}
+		case *ssa.Call:
+			if b, ok := x.Call.Value.(*ssa.Builtin); ok && b.Name() == "len" {
+				if p, ok := x.Call.Args[0].(*ssa.Parameter); ok {
+					for j, q := range fn.Params {
+						if q == p {
+							return c.LenOf(cc.Args[j]), true
+						}
+					}
+				}
+			}
+		case *ssa.UnOp:
+			if x.Op == token.MUL {
+				if fa, ok := x.X.(*ssa.FieldAddr); ok {
+					if p, ok := fa.X.(*ssa.Parameter); ok {
+						for j, q := range fn.Params {
+							if q == p {
+								if val := c.FI.FieldValueAt(cc.Args[j], fa.Field, call); val != nil {
+									return c.Lin(val), true
+								}
+							}
+						}
+					}
+				}
+			}
+		}
+		return lin.Form{}, false
+	}
+	l, ok1 := tr(bo.X, 0)
+	r, ok2 := tr(bo.Y, 0)
+	if !ok1 || !ok2 {
+		return
+	}
+	op := bo.Op
+	if !truth {
+		op = negate(op)
+	}
+	switch op {
+	case token.LSS:
+		c.add(lin.LT(l, r))
+	case token.LEQ:
+		c.add(lin.LE(l, r))
+	case token.GTR:
+		c.add(lin.GT(l, r))
+	case token.GEQ:
+		c.add(lin.GE(l, r))
+	case token.EQL:
+		c.add(lin.EQ(l, r)...)
 	}
 }
 
@@ -398,13 +512,80 @@ func (c *Ctx) resultFacts(call *ssa.Call, i int, o lin.Form) {
 	if len(callees) == 0 {
 		return
 	}
+	nonNeg := true
 	for _, f := range callees {
-		if !c.FI.W.P.InModule(f) || !c.FI.W.nonNegResult(f, i) {
+		if !c.FI.W.P.InModule(f) {
 			return
 		}
+		if !c.FI.W.nonNegResult(f, i) {
+			nonNeg = false
+		}
 	}
-	c.add(lin.GE0(o))
+	if nonNeg {
+		c.add(lin.GE0(o))
+	}
+	// constant upper bound common to all callees
+	var hi int64 = -1
+	for _, f := range callees {
+		k, ok := c.FI.W.resultUpper(f, i)
+		if !ok {
+			return
+		}
+		if k > hi {
+			hi = k
+		}
+	}
+	if hi >= 0 {
+		c.add(lin.LE(o, lin.K(hi)))
+	}
 }
+
+// resultUpper: the least of a few round constants K such that in-module
+// function fn returns a value <= K in result i at every return (cached;
+// pessimistic for recursion).
+func (w *World) resultUpper(fn *ssa.Function, i int) (int64, bool) {
+	if w.nonNeg == nil {
+		w.nonNeg = map[string]int{}
+	}
+	key := fn.String() + "#hi" + string(rune('0'+i))
+	if v, ok := w.nonNeg[key]; ok {
+		if v < 0 {
+			return 0, false
+		}
+		return resultUpperKs[v], true
+	}
+	w.nonNeg[key] = -1
+	if fn.Blocks == nil || !w.P.InModule(fn) {
+		return 0, false
+	}
+	fi := w.Info(fn)
+	var rets []*ssa.Return
+	for _, b := range fn.Blocks {
+		if ret, ok := b.Instrs[len(b.Instrs)-1].(*ssa.Return); ok && i < len(ret.Results) {
+			rets = append(rets, ret)
+		}
+	}
+	if len(rets) == 0 {
+		return 0, false
+	}
+	for ki, k := range resultUpperKs {
+		all := true
+		for _, ret := range rets {
+			c := fi.ctxBefore(ret)
+			if !c.Prove(lin.LE(c.Lin(ret.Results[i]), lin.K(k))) {
+				all = false
+				break
+			}
+		}
+		if all {
+			w.nonNeg[key] = ki
+			return k, true
+		}
+	}
+	return 0, false
+}
+
+var resultUpperKs = []int64{1, 255, 65535, 1<<17 - 1, 1<<24 - 1, 1<<31 - 1, 1<<32 - 1}
 
 func o2t(call *ssa.Call, i int) types.Type {
 	res := call.Common().Signature().Results()
@@ -448,4 +629,77 @@ func (w *World) positiveOnSuccess(fn *ssa.Function) bool {
 		}
 	}
 	return true
+}
+
+// resultLenRel: for in-module function fn and slice/string result i, the
+// relations len(result_i) <= len(param_j) - K that hold at every return
+// (largest K of a small family; cached; nothing for recursion in progress).
+type lenRel struct {
+	param int
+	k     int64
+}
+
+func (w *World) resultLenRel(fn *ssa.Function, i int) []lenRel {
+	if w.lenRelC == nil {
+		w.lenRelC = map[string][]lenRel{}
+	}
+	key := fn.String() + "#" + string(rune('0'+i))
+	if r, ok := w.lenRelC[key]; ok {
+		return r
+	}
+	w.lenRelC[key] = nil
+	if fn.Blocks == nil || !w.P.InModule(fn) {
+		return nil
+	}
+	fi := w.Info(fn)
+	var rets []*ssa.Return
+	for _, b := range fn.Blocks {
+		if ret, ok := b.Instrs[len(b.Instrs)-1].(*ssa.Return); ok && i < len(ret.Results) {
+			rets = append(rets, ret)
+		}
+	}
+	if len(rets) == 0 {
+		return nil
+	}
+	var out []lenRel
+	for j, p := range fn.Params {
+		if !isSeq(p.Type()) {
+			continue
+		}
+		for _, k := range []int64{16, 8, 4, 3, 2, 1, 0} {
+			all := true
+			for _, ret := range rets {
+				c := fi.ctxBefore(ret)
+				// a nil / empty constant result has length 0
+				if !c.Prove(lin.LE(c.LenOf(ret.Results[i]), c.LenOf(p).AddK(-k))) {
+					all = false
+					break
+				}
+			}
+			if all {
+				out = append(out, lenRel{j, k})
+				break
+			}
+		}
+	}
+	w.lenRelC[key] = out
+	return out
+}
+
+// resultLenFacts: f = len(result i of call); adds the callee's length relations.
+func (c *Ctx) resultLenFacts(call *ssa.Call, i int, f lin.Form) {
+	cc := call.Common()
+	if cc.IsInvoke() {
+		return
+	}
+	fn := cc.StaticCallee()
+	if fn == nil || !c.FI.W.P.InModule(fn) || fn == c.FI.Fn {
+		return
+	}
+	if len(cc.Args) != len(fn.Params) {
+		return
+	}
+	for _, r := range c.FI.W.resultLenRel(fn, i) {
+		c.add(lin.LE(f, c.LenOf(cc.Args[r.param]).AddK(-r.k)))
+	}
 }
